@@ -150,6 +150,11 @@ func (b behaviour) handler(o *gObs) http.Handler {
 				panic(http.ErrAbortHandler)
 			case s == "PE":
 				panic(fmt.Errorf("handler-panic: %w", context.DeadlineExceeded))
+			case s == "PZ":
+				// re-raising an error variable that happens to be nil: with the module's go 1.19
+				// semantics recover() reports nil for it, but it is a panic of the handler all the same
+				var e error
+				panic(e)
 			case s == "PN":
 				var m map[string]int
 				m["x"] = 1
@@ -186,6 +191,8 @@ func guardBehaviours() []behaviour {
 		{"S50", "PA"},
 		{"PE"},
 		{"PN"},
+		{"PZ"},
+		{"H", "PZ"},
 		{"W500", "Bx"},
 		{"W0"},
 		{"S50", "W999"},
@@ -429,6 +436,71 @@ func TestVerifMaxConns(t *testing.T) {
 					}
 				})
 			}
+		}
+	}
+}
+
+// Nobody waits inside the guard: with the handlers held open, once everything has moved as
+// far as it can every request is either inside a handler (at most MaxConns of them) or has
+// been answered 503 - none is parked in the guard waiting for a slot (that wait would not
+// even be covered by the route timeout).
+func TestVerifMaxConnsNoWaiting(t *testing.T) {
+	defer vrt.WriteReport()
+	logx.Disable()
+	bound := 2
+	if vrt.Thorough() {
+		bound = 3
+	}
+	idx := 150
+	for _, n := range []int{1, 2} {
+		for _, reqs := range []int{2, 3} {
+			idx++
+			if !vrt.Shard(idx) {
+				continue
+			}
+			n, reqs := n, reqs
+			vrt.Explore(vrt.Options{Name: fmt.Sprintf("guards/maxconns-no-waiting/n=%d/requests=%d", n, reqs), Bound: bound, Prune: true, Budget: vrt.FairBudget(1)}, func(r *vrt.Run) {
+				gate := make(chan struct{})
+				inside := 0
+				chain := MaxConns(n)(http.HandlerFunc(func(w http.ResponseWriter, req *http.Request) {
+					vrt.Obs()
+					inside++
+					<-gate
+					w.Write([]byte("ok"))
+				}))
+				var wg sync.WaitGroup
+				codes := make([]string, reqs)
+				for i := 0; i < reqs; i++ {
+					i := i
+					wg.Add(1)
+					go func() {
+						defer wg.Done()
+						rec := newRecWriter()
+						chain.ServeHTTP(rec, httptest.NewRequest(http.MethodGet, "/x", nil))
+						vrt.Obs()
+						codes[i] = rec.summary()
+					}()
+				}
+				vrt.Settle()
+				answered := 0
+				for _, c := range codes {
+					if c != "" {
+						answered++
+						if !strings.HasPrefix(c, "503|") {
+							r.Failf("a request was answered %s while the handlers are still held open", c)
+						}
+					}
+				}
+				r.Outcome("inside=%d answered=%d", inside, answered)
+				if inside > n {
+					r.Failf("%d requests inside handlers at once, MaxConns=%d", inside, n)
+				}
+				if inside+answered != reqs {
+					r.Failf("%d of %d requests are neither inside a handler nor answered: they wait inside the MaxConns guard (inside=%d, answered 503=%d)", reqs-inside-answered, reqs, inside, answered)
+				}
+				close(gate)
+				wg.Wait()
+			})
 		}
 	}
 }
